@@ -27,9 +27,15 @@ def adr_history(rng, region, uplinks):
         elif k == 3:
             net.rx2c()
             net.op("dr %d" % rng.choice(list(machist.UPLINK_DR[region])))
+        elif k == 4:
+            net.rx2c()
+            net.downlink(port=rng.choice([None, 9]), payload=b"", confirmed=rng.chance(1, 2), rxc=True)   # Class C downlink between uplinks
+        elif k == 5:
+            net.downlink(port=9, payload=b"c", confirmed=rng.chance(1, 2), rxc=True)                       # Class C downlink before RX1/RX2
+            net.rx2c()
         else:
             net.rx2c()
-        if i % 8 == 0 or k < 4:
+        if i % 8 == 0 or k < 6:
             net.snap()
     net.snap()
     return net.line()
